@@ -11,3 +11,6 @@ Definition into_iter (ix : index) : list ipack := into_iter_with msort_entries_b
 Definition mkid (hi lo : N) : N := hi * 2 ^ 192 + lo.
 Definition id_hi (i : N) : N := i / 2 ^ 192.
 Definition id_lo (i : N) : N := i mod 2 ^ 192.
+
+(* the shared OCaml prelude converts to Z as well; make sure the type is extracted *)
+Definition z_unused : Z := 0%Z.
